@@ -42,6 +42,7 @@ class SplitPoint(BaseException):
 
 class Ctx:
     def __init__(self):
+        self.cross_every = 0   # thorough tier: re-discharge every k-th obligation with cvc5
         self.reset_stats()
         self.trail = []
         self.pos = 0
@@ -60,7 +61,8 @@ class Ctx:
 
     def reset_stats(self):
         self.stats = dict(paths=0, aborted=0, decisions=0, queries=0, solver_s=0.0,
-                          obligations=0, discharged=0, concretized=0, max_depth=0)
+                          obligations=0, discharged=0, concretized=0, max_depth=0,
+                          cross_checked=0, cross_agree=0, cross_unsupported=0, cross_s=0.0)
 
     # -- per path ---------------------------------------------------------
     def new_path(self):
@@ -767,6 +769,41 @@ def assume(c):
         raise PathAbort()
 
 
+def _second_solver(c, z3_says_sat):
+    """re-discharge pc /\ not c with cvc5 (SMT-LIB2 export); disagreement is inconclusive, an error/timeout is 'unsupported'"""
+    t = time.time()
+    CTX.stats["cross_checked"] += 1
+    try:
+        import cvc5
+        s2 = z3.Solver()
+        s2.add(CTX.solver.assertions())
+        s2.add(z3.Not(c))
+        smt = s2.to_smt2()
+        slv = cvc5.Solver()
+        slv.setOption("tlimit-per", "20000")
+        slv.setLogic("ALL")
+        par = cvc5.InputParser(slv)
+        par.setStringInput(cvc5.InputLanguage.SMT_LIB_2_6, smt, "obligation")
+        sm = par.getSymbolManager()
+        verdict = None
+        while True:
+            cmd = par.nextCommand()
+            if cmd.isNull():
+                break
+            out = cmd.invoke(slv, sm).strip()
+            if out in ("sat", "unsat", "unknown"):
+                verdict = out
+    except Exception:  # noqa - parser/logic not supported by cvc5 for this query
+        verdict = None
+    CTX.stats["cross_s"] += time.time() - t
+    if verdict in (None, "unknown"):
+        CTX.stats["cross_unsupported"] += 1
+        return
+    if (verdict == "sat") != z3_says_sat:
+        raise Inconclusive(f"solvers disagree on an obligation: z3 {'sat' if z3_says_sat else 'unsat'}, cvc5 {verdict}")
+    CTX.stats["cross_agree"] += 1
+
+
 def prove(c, msg="assertion"):
     """Obligation: c holds for every value on this path. A failure is recorded with its model
     and the path continues under the assumption c (so later obligations are still examined)."""
@@ -775,6 +812,9 @@ def prove(c, msg="assertion"):
     if z3.is_true(c):
         CTX.stats["discharged"] += 1
         return True
+    if CTX.cross_every and CTX.stats["obligations"] % CTX.cross_every == 0:
+        sat = CTX.check(z3.Not(c))
+        _second_solver(c, sat)
     if CTX.check(z3.Not(c)):
         m = CTX.solver.model()
         record_violation(msg, m)
@@ -789,9 +829,12 @@ def prove(c, msg="assertion"):
 
 def cover(label, c=True):
     """Reachability witness: label is covered when pc /\\ c is satisfiable on some path."""
-    if label in CTX.covered:
-        return
     c = z3.simplify(_cond(c))
+    if label in CTX.covered:
+        # already witnessed somewhere: only note (for the non-trivial count) whether this path's cached model satisfies it
+        if z3.is_true(c) or (CTX.model is not None and not z3.is_false(c) and z3.is_true(CTX.model.eval(c, model_completion=True))):
+            CTX.labels.add(label)
+        return
     if z3.is_false(c):
         return
     if z3.is_true(c):
